@@ -72,7 +72,7 @@ int main(int argc, char ** argv)
   struct D { const char * n; int l, m; };
   static const D DBD[] = {{"Mo100", 0, 1}, {"Mo100", 1, 3}, {"Cd106", 0, 9}, {"Cd106", 1, 11}, {"Zr96", 0, 20}, {"Nd150", 2, 1}, {"Se82", 0, 17}, {"Ca48", 2, 7},
                           {"Zn70", 0, 5}, {"Zn70", 0, 5}, {"Zn70", 0, 4}}; // window-capable modes: energy windows (both bounds, lower only, upper only)
-  long primaries = 0, events = 0;
+  long primaries = 0, events = 0, refused_events = 0;
   std::set<std::string> classes;
   std::string sample;
   // every third action object is reused for the next configuration (SetConfiguration on a live action that already
@@ -113,7 +113,7 @@ int main(int argc, char ** argv)
       cfg.mdl_cone_colatitude = 180.0 * r.uniform();
       cfg.mdl_cone_aperture = 5.0 + 55.0 * r.uniform();
       cfg.mdl_cone_aperture2 = r.below(3) == 0 ? 10.0 + 30.0 * r.uniform() : -1.0;
-      cfg.mdl_error_on_missing_particle = false;
+      cfg.mdl_error_on_missing_particle = r.below(3) == 0;
     }
     int vmode = (int)r.below(3); // 0 none, 1 unique point, 2 counting random
     std::string lab = cfg.decay_category + "/" + cfg.nuclide + fmt("/vertex%d", vmode);
@@ -173,7 +173,12 @@ int main(int argc, char ** argv)
     }
     for (int ie = 0; ie < nev; ie++) {
       bxdecay0::event e;
-      ref.shoot(prng, e);
+      bool ref_threw = false;
+      try {
+        ref.shoot(prng, e);
+      } catch (std::exception &) {
+        ref_threw = true; // the core refuses this event (momentum-direction lock with error_on_missing_particle and no such particle)
+      }
       if (touch_gun && action.GetParticleGun() != nullptr) {
         action.GetParticleGun()->SetNumberOfParticles(2 + ie % 3);
         action.GetParticleGun()->SetParticleTime(123.0);
@@ -181,11 +186,24 @@ int main(int argc, char ** argv)
       }
       G4Event g4ev;
       long shots0 = cvg.shots;
+      bool g4_threw = false;
+      int aborts_ev = g4mock::recorder().abort_run;
       try {
         action.GeneratePrimaries(&g4ev);
       } catch (std::exception & x) {
-        fail("transfer|exception", lab + ": GeneratePrimaries raised " + x.what());
-        break;
+        g4_threw = true;
+        if (!ref_threw) {
+          fail("transfer|exception", lab + ": GeneratePrimaries raised " + x.what());
+          break;
+        }
+      }
+      if (ref_threw) {
+        events++;
+        refused_events++;
+        if (!g4_threw && g4mock::recorder().abort_run == aborts_ev && !g4ev.primaries.empty())
+          fail("transfer|pushes-what-the-core-refuses", lab + fmt(": the core generator refuses event %d (exception) but the action pushed %zu primaries", ie, g4ev.primaries.size()));
+        if (g4mock::recorder().abort_run != aborts_ev) aborts0 = g4mock::recorder().abort_run; // a refusal by AbortRun is a refusal
+        continue;
       }
       events++;
       const auto & pp = e.get_particles();
